@@ -149,7 +149,10 @@ def check_sat(assertions, want_model=True, use_cvc5=True, seeds=(0, 7)) -> Verdi
         if r == z3.unsat:
             return Verdict('unsat', 'z3', time.time() - t0)
         if r == z3.sat:
-            return Verdict('sat', 'z3', time.time() - t0, s.model() if want_model else None)
+            if model_validates(s):
+                return Verdict('sat', 'z3', time.time() - t0, s.model() if want_model else None)
+            last_reason = 'z3 reported sat but its model does not satisfy the assertions (treated as unknown)'
+            continue
         last_reason = s.reason_unknown()
     if use_cvc5:
         v = cvc5_check(assertions)
@@ -158,6 +161,22 @@ def check_sat(assertions, want_model=True, use_cvc5=True, seeds=(0, 7)) -> Verdi
             return v
         last_reason += ' | cvc5: ' + v.reason
     return Verdict('unknown', 'z3+cvc5' if use_cvc5 else 'z3', time.time() - t0, None, last_reason)
+
+
+def model_validates(s) -> bool:
+    """z3 can answer `sat` with a model that does not satisfy the input when lambdas / sequences / quantifiers interact;
+    a counter-model is believed only if every quantifier-free assertion evaluates to true in it"""
+    try:
+        m = s.model()
+        for a in s.assertions():
+            if has_quantifier(a):
+                continue
+            v = m.eval(a, model_completion=True)
+            if z3.is_false(v):
+                return False
+        return True
+    except z3.Z3Exception:
+        return False
 
 
 PORTFOLIO = [
@@ -193,7 +212,10 @@ def check_sat_text(text: str, use_cvc5=True, seeds=(0, 7)) -> Verdict:
         if r == z3.unsat:
             return Verdict('unsat', label, time.time() - t0)
         if r == z3.sat and trust_sat:
-            return Verdict('sat', label, time.time() - t0)
+            if model_validates(s):
+                return Verdict('sat', label, time.time() - t0)
+            last = 'z3 reported sat but its model does not satisfy the assertions (treated as unknown)'
+            continue
         last = str(s.reason_unknown()) if r != z3.sat else 'sat without model-based quantifier check'
     if use_cvc5:
         v = cvc5_check_text(text)
